@@ -342,6 +342,18 @@ class L1MinusL2Norm(Functional):
             kwargs: Additional arguments that may be used by derived
                 classes.
         """
+        if isinstance(v, snp.BlockArray):
+            # The functional couples all entries (maximum and l2 norm of the whole array):
+            # evaluate on the concatenation of the ravelled blocks and split the result.
+            shapes = [blk.shape for blk in v]
+            sizes = [blk.size for blk in v]
+            u = self.prox(snp.concatenate([blk.ravel() for blk in v]), lam, **kwargs)
+            out, start = [], 0
+            for shp, sz in zip(shapes, sizes):
+                out.append(u[start : start + sz].reshape(shp))
+                start += sz
+            return snp.blockarray(out)
+
         alpha = lam
         beta = self.beta
         va = snp.abs(v)
